@@ -298,19 +298,51 @@ class Values:
 
         return " ".join(ast.unparse(Sub().visit(tree)).split())
 
-    def canon_call(self, f: FuncInfo, env, e: ast.AST) -> str:
-        """canon_at, with a call of a spliced helper that consists of a single `return <expr>` replaced by that expression"""
+    def canon_call(self, f: FuncInfo, env, e: ast.AST, _depth: int = 0) -> str:
+        """canon_at, with every call of a spliced helper that consists of a single `return <expr>` replaced by that expression
+        (also when the call is an operand of a larger expression: `f"--{_dashed(parameter.name)}"`)"""
         from ..cfg import bind_args
 
         e = strip_cast(e)
         if isinstance(e, ast.Name):
             e = self.resolve(f, e)
         t = self.an.spliced_at.get(id(e)) if isinstance(e, ast.Call) else None
-        if t is not None:
+        if t is not None and _depth < 6:
             body = [st for st in t.node.body if not (isinstance(st, ast.Expr) and isinstance(st.value, ast.Constant))]
             if len(body) == 1 and isinstance(body[0], ast.Return) and body[0].value is not None:
-                return self.canon_call(t, bind_args(e, t, f, env), body[0].value)
-        return self.canon_at(f, env, e)
+                return self.canon_call(t, bind_args(e, t, f, env), body[0].value, _depth + 1)
+        # nested helper calls: substitute their expansion, keyed by a placeholder name
+        subs = {}
+        if _depth < 6:
+            for x in ast.walk(e):
+                if x is not e and isinstance(x, ast.Call) and id(x) in self.an.spliced_at:
+                    tt = self.an.spliced_at[id(x)]
+                    body = [st for st in tt.node.body if not (isinstance(st, ast.Expr) and isinstance(st.value, ast.Constant))]
+                    if len(body) == 1 and isinstance(body[0], ast.Return) and body[0].value is not None:
+                        subs[id(x)] = self.canon_call(tt, bind_args(x, tt, f, env), body[0].value, _depth + 1)
+        if not subs:
+            return self.canon_at(f, env, e)
+        import copy
+
+        ph = {}
+        class Mark(ast.NodeTransformer):
+            def visit_Call(self, n):
+                if getattr(n, "_tpsa_orig", None) in subs:
+                    nm = f"__h{len(ph)}__"
+                    ph[nm] = subs[n._tpsa_orig]
+                    return ast.copy_location(ast.Name(id=nm, ctx=ast.Load()), n)
+                return self.generic_visit(n)
+        for x in ast.walk(e):
+            if isinstance(x, ast.Call):
+                x._tpsa_orig = id(x)
+        e2 = Mark().visit(copy.deepcopy(e))
+        txt = self.canon_at(f, env, e2)
+        for nm, rep_ in ph.items():
+            txt = txt.replace(nm, "(" + rep_ + ")" if not rep_.replace("_", "").replace(".", "").isalnum() and not rep_.endswith(")") else rep_)
+        try:
+            return " ".join(ast.unparse(ast.parse(txt, mode="eval").body).split())
+        except SyntaxError:
+            return txt
 
     def tuple_return_var(self, f: FuncInfo, env, name: str):
         """`a, b = helper(...)` with a spliced helper ending in `return x, y`: for name `a` the helper's frame and its
